@@ -447,6 +447,20 @@ var c06Directed = []c06Dir{
 	{Name: "object-cons-pending-key", Src: `{(k) = 1}`, A: cty.UnknownVal(cty.String), B: cty.StringVal("q")},
 	{Name: "for-object-pending-key", Src: `{for x in [k]: x => 1}`, A: cty.UnknownVal(cty.String), B: cty.StringVal("q")},
 	{Name: "cond-pending-marked-predicate", Src: `k ? 1 : 2`, A: cty.UnknownVal(cty.Bool), B: cty.False},
+	{Name: "cond-pending-predicate-equal-arms", Src: `pend ? k : "a"`, A: cty.StringVal("a"), B: cty.StringVal("b"), Vars: map[string]cty.Value{"pend": cty.UnknownVal(cty.Bool)}},
+	{Name: "cond-pending-predicate-equal-arms-flipped", Src: `pend ? "a" : k`, A: cty.StringVal("a"), B: cty.StringVal("b"), Vars: map[string]cty.Value{"pend": cty.UnknownVal(cty.Bool)}},
+	{Name: "cond-pending-predicate-equal-bool-arms", Src: `pend ? k : true`, A: cty.True, B: cty.False, Vars: map[string]cty.Value{"pend": cty.UnknownVal(cty.Bool)}},
+	{Name: "cond-pending-predicate-equal-object-arms", Src: `pend ? {a = k} : {a = "a"}`, A: cty.StringVal("a"), B: cty.StringVal("b"), Vars: map[string]cty.Value{"pend": cty.UnknownVal(cty.Bool)}},
+	{Name: "cond-pending-predicate-equal-tuple-arms", Src: `pend ? [k] : ["a"]`, A: cty.StringVal("a"), B: cty.StringVal("b"), Vars: map[string]cty.Value{"pend": cty.UnknownVal(cty.Bool)}},
+	{Name: "cond-pending-predicate-equal-number-arms", Src: `pend ? k : 1`, A: cty.NumberIntVal(1), B: cty.NumberIntVal(2), Vars: map[string]cty.Value{"pend": cty.UnknownVal(cty.Bool)}},
+	{Name: "cond-pending-predicate-equal-list-arms", Src: `pend ? k : lst`, A: cty.ListVal([]cty.Value{cty.StringVal("x")}), B: cty.ListVal([]cty.Value{cty.StringVal("x"), cty.StringVal("y")}), Vars: map[string]cty.Value{"pend": cty.UnknownVal(cty.Bool), "lst": cty.ListVal([]cty.Value{cty.StringVal("x")})}},
+	{Name: "splat-pending-scalar", Src: `k[*]`, A: cty.UnknownVal(cty.String), B: cty.StringVal("x")},
+	{Name: "attr-splat-pending-scalar", Src: `k.*`, A: cty.UnknownVal(cty.String), B: cty.StringVal("x")},
+	{Name: "splat-pending-object", Src: `k[*].name`, A: cty.UnknownVal(cty.Object(map[string]cty.Type{"name": cty.String})), B: cty.ObjectVal(map[string]cty.Value{"name": cty.StringVal("x")})},
+	{Name: "splat-pending-map", Src: `k[*]`, A: cty.UnknownVal(cty.Map(cty.String)), B: cty.MapVal(map[string]cty.Value{"name": cty.StringVal("x")})},
+	{Name: "splat-pending-dynamic", Src: `k[*]`, A: cty.DynamicVal, B: cty.StringVal("x")},
+	{Name: "splat-pending-set", Src: `k[*]`, A: cty.UnknownVal(cty.Set(cty.String)), B: cty.SetVal([]cty.Value{cty.StringVal("x")})},
+	{Name: "splat-pending-tuple-element", Src: `[k, "z"][*]`, A: cty.UnknownVal(cty.String), B: cty.StringVal("x")},
 	// a marked key of another type than the collection's key type (it is converted first)
 	{Name: "list-index-marked-string-key", Src: `lst[k]`, A: cty.StringVal("0"), B: cty.StringVal("1"), Vars: map[string]cty.Value{"lst": cty.ListVal([]cty.Value{cty.StringVal("x"), cty.StringVal("y")})}},
 	{Name: "tuple-index-marked-string-key", Src: `tup[k]`, A: cty.StringVal("0"), B: cty.StringVal("1"), Vars: map[string]cty.Value{"tup": cty.TupleVal([]cty.Value{cty.StringVal("x"), cty.True})}},
